@@ -280,9 +280,79 @@ def h_multiget_menu(pre: int, i1: int, dup: bool) -> bool:
     return run(body_multiget_menu, pre, i1, dup)
 
 
+# ------------------------------------------------------------------ real bodies: data of a report == what GET serves
+def _load_real_web():
+    import importlib
+    import sys
+    out = {}
+    saved = {k: v for k, v in sys.modules.items() if k == "xandikos" or k.startswith("xandikos.")}
+    for k in list(saved):
+        del sys.modules[k]
+    try:
+        for m in ("store.git", "icalendar", "vcard", "web", "caldav", "carddav", "webdav"):
+            out[m] = importlib.import_module("xandikos." + m)
+    finally:
+        for k in [k for k in sys.modules if k == "xandikos" or k.startswith("xandikos.")]:
+            del sys.modules[k]
+        sys.modules.update(saved)
+    return out
+
+
+_REALW = _load_real_web()
+
+
+def _valid_corpus():
+    from xv.harness import C14
+    return [(ct, body) for (ct, body, good) in C14.CORPUS if good]
+
+
+def body_real_data(i):
+    """Every valid body of the C14 corpus (folded and long lines, LF-only endings, non-ASCII and astral text, grouped
+    vCard properties, VTIMEZONE / TZID, RRULE / EXDATE / RDATE, VALARM) stored in a real BareGitStore: the text the
+    real CalendarDataProperty / AddressDataProperty renders is byte for byte what GET serves, and getetag is the
+    member's etag."""
+    from xv.core import pick, untraced
+    corpus = _valid_corpus()
+    i = pick(i, len(corpus))
+    with untraced():
+        import asyncio
+        drive = asyncio.run  # the pristine web module really awaits asyncio.to_thread
+        R = _REALW
+        ct, body = corpus[i]
+        store = R["store.git"].BareGitStore.create_memory()
+        store.load_extra_file_handler(R["icalendar"].ICalendarFile)
+        store.load_extra_file_handler(R["vcard"].VCardFile)
+        cal = ct == "text/calendar"
+        name = "x.ics" if cal else "x.vcf"
+        (n_, etag) = store.import_one(name, ct, [body], message="m")
+        col = (R["web"].CalendarCollection if cal else R["web"].AddressbookCollection)(None, "/c", store)
+        res = col.get_member(name)
+        served = b"".join(drive(res.get_body()))
+        prop = R["caldav"].CalendarDataProperty() if cal else R["carddav"].AddressDataProperty()
+        el = R["webdav"].ET.Element(prop.name)
+        drive(prop.get_value_ext("/c/" + name, res, el, {}, R["webdav"].ET.Element(prop.name)))
+        ok = el.text.encode("utf-8") == served and drive(res.get_etag()) == '"' + etag + '"'
+        return (ok, "calendar" if cal else "card")
+
+
+def h_real_data(i: int) -> bool:
+    """
+    pre: 0 <= i < 15
+    post: _
+    """
+    return run(body_real_data, i)
+
+
 _B = {"quick": {"nhref": 2, "rlen": 2}, "thorough": {"nhref": 4, "rlen": 3}}
 
 HARNESSES = [
+    Harness("real_data", h_real_data, body_real_data, classes=["calendar", "card"], budget={"quick": 45, "thorough": 90},
+            describe="the 15 valid real bodies of the C14 corpus in a real BareGitStore: calendar-data / address-data as rendered "
+                     "by the real property classes == the bytes GET serves, getetag == the member's etag; exhaustive; nothing "
+                     "stubbed",
+            encodes=["xandikos.caldav.CalendarDataProperty.get_value_ext", "xandikos.carddav.AddressDataProperty.get_value_ext",
+                     "xandikos.web.ObjectResource.get_body", "xandikos.web.ObjectResource.get_etag",
+                     "xandikos.icalendar.ICalendarFile.normalized"]),
     Harness("multiget_menu", h_multiget_menu, body_multiget_menu,
             classes=[("rewrite-a", ("/", False, False)), ("astral-a", ("/dav/", False, True)), ("put-special", ("/dav/", False, True))],
             parts={"quick": [("/", False, False), ("/dav/", False, True), ("/dav/", True, False), ("/a/b/", True, True)],
